@@ -639,6 +639,12 @@ class Run:
         elif k == 'setsame':
             self.do_set(op[1], self.model[op[1]])
         elif k == 'setvary':
+            if type(self.model[op[1]]) not in (dict, list, tuple) and self.rng.random() < 0.6:
+                # start from a small container so that the related value differs in one key name / element / None
+                base = V.small_container(self.rng)
+                while type(base) not in (dict, list, tuple) or not base:
+                    base = V.small_container(self.rng)
+                self.do_set(op[1], base)
             self.do_set(op[1], V.vary(self.model[op[1]], self.rng))
         elif k == 'batch':
             c = dict(kind='batch')
